@@ -192,6 +192,15 @@ def main(argv):
     thorough = chk.tier == "thorough"
     chk.translate(["epoch"])
     chk.coq("Properties_C09.v")
+    # store-buffer half: when the entry fence / the seq_cst tick were weakened in the source, search the
+    # store-buffer machine for the execution in which reader and writer miss each other (model-level replay)
+    defs = ("Require Import Verif.Gen.Gen_epoch.\n"
+            "Definition ef : bool := match sites_lock with [(KLoad, _, _); (KStore, _, _); (KFence, o, _)] => is_seq_cst o | _ => false end.\n"
+            "Definition tf : bool := match sites_tick with (KFadd, o, _) :: _ => is_seq_cst o | _ => false end.")
+    chk.wm_litmus("epoch-entry", defs, "epoch_safe ef tf", "[epoch_reader ef; epoch_writer tf]", "epoch_bad",
+                  "Epoch::lock's entry fence or tick()'s read-modify-write is not seq_cst (or the slot store moved "
+                  "behind the fence): a reader inside its region still sees the old object while the writer's scan "
+                  "misses the reader's slot")
     model = chk.extract("ep", "Extract_ep.v", "ep_driver.ml", explorer=True)
     impl = chk.build_cpp("c09_epoch", [os.path.join(VERIF, "harness/conc/c09_epoch.cpp"),
                                        os.path.join(VERIF, "harness/shim/dsched.cpp")],
